@@ -340,7 +340,16 @@ func injectHTTP(t *rapid.T, s *Schema, inj *Injection) {
 	case "path_var_no_field":
 		m.Verb = allVerbs[rapid.IntRange(0, len(bodyVerbs)-1).Draw(t, "verb")]
 		m.Verb = bodyVerbs[rapid.IntRange(0, len(bodyVerbs)-1).Draw(t, "verb2")]
-		m.Path = "/offending/{bad_field}"
+		// whatever stands between the braces is a variable name, and none of these names a field
+		name := "bad_field"
+		if InjectShape >= 0 {
+			name = []string{"bad_field", "bad.field", "bad_field...", "bad_field:", "BadField", "bad field"}[InjectShape%6]
+		} else {
+			name = rapid.SampledFrom([]string{"bad_field", "bad_field", "bad.field", "bad_field...", "bad_field:", "BadField", "bad field"}).Draw(t, "varname")
+		}
+		m.Path = "/offending/{" + name + "}"
+		inj.Shape = "var:" + name
+		inj.Offenders = append(inj.Offenders, name)
 		req.Fields = []*Field{{Name: "other_field", Number: 1, Kind: KString, Card: Singular}}
 	case "path_var_non_scalar":
 		m.Verb = bodyVerbs[rapid.IntRange(0, len(bodyVerbs)-1).Draw(t, "verb")]
